@@ -251,4 +251,5 @@ def native_cases(tier, seed):
     return [{"prop": PROP, "kind": "sweep", "inputs": {"seed": seed, "n": 400 if tier == "quick" else 20000}},
             {"prop": PROP, "kind": "create_readback", "inputs": {"seed": seed, "n": 200 if tier == "quick" else 5000}},
             {"prop": PROP, "kind": "create_readback", "inputs": {"seed": seed, "n": 120 if tier == "quick" else 3000, "dst_days": True}},
-            {"prop": PROP, "kind": "shipped", "inputs": {}}]
+            {"prop": PROP, "kind": "shipped", "inputs": {}},
+            {"prop": PROP, "kind": "zones_same_reply", "inputs": {"seed": seed}}]
